@@ -33,6 +33,10 @@ SPEC = {
 }
 
 
+class HarnessError(Exception):
+    pass
+
+
 class Order:
     def __init__(self, n, target, tag, needed):
         self.n, self.target, self.tag, self.needed = n, target, tag, needed
@@ -90,6 +94,8 @@ class Run:
                 self.h_name = name
                 if not nameless:
                     self.name = name
+                self.cap_fails = {}
+                self.cap_calls = {}
                 self.table = table                # tag -> [duration, capacity, cost]
                 self.hook_requests = hook_requests  # tag -> [('start'|'end', target name, tag)]
 
@@ -99,6 +105,11 @@ class Run:
                 return d
 
             def get_work_order_capacity(self, tag):
+                k = self.cap_fails.get(tag)
+                if k is not None:
+                    self.cap_calls[tag] = self.cap_calls.get(tag, 0) + 1
+                    if self.cap_calls[tag] == k:
+                        raise HarnessError('the capacity hook failed')      # user code failing once
                 return self.table[tag][1]
 
             def get_work_order_cost(self, tag):
@@ -126,6 +137,7 @@ class Run:
         for name, t in case['targets'].items():
             hooks = {tag: [tuple(x) for x in lst] for tag, lst in t.get('hooks', {}).items()}
             self.targets[name] = HTarget(name, t['table'], hooks, t.get('nameless', False))
+            self.targets[name].cap_fails = dict(t.get('cap_fails') or {})
         self.ref = RefMaintainer(float('inf') if case['capacity'] is None else case['capacity'])
         self.bus.attach(self)
         self.failed = False
@@ -154,7 +166,12 @@ class Run:
         now = self.env.now
         want = not ref.requested(tname, tag)
         target = self.targets[tname]
-        got = self.maint.create_work_order(target, tag, info=f'{tname}/{tag}')
+        try:
+            got = self.maint.create_work_order(target, tag, info=f'{tname}/{tag}')
+        except HarnessError:
+            # the request was not accepted (its capacity hook failed); the caller carries on, nothing has changed
+            self.sh.count('requests_whose_capacity_hook_failed')
+            return
         self.sh.count('requests')
         if got is not want:
             self.fail('return_value', f'create_work_order({tname}, {tag}) at {now!r} returned {got!r}; an identical '
@@ -313,6 +330,8 @@ def gen_case(rng, tie):
                 # a hook re-requests with the dedicated tag 'h' (never with the tag that is finishing)
                 hooks[tg] = [[rng.choice(['start', 'end']), rng.choice(names), 'h']]
         targets[n] = {'table': table, 'hooks': hooks, 'nameless': rng.random() < 0.15}
+        if rng.random() < 0.15:
+            targets[n]['cap_fails'] = {rng.choice(tags): rng.choice([1, 2, 3])}
     horizon = 20.0
     n_req = rng.randint(5, 40)
     if rng.random() < 0.03:
